@@ -65,6 +65,9 @@ func VerifC05Raw() {
 	out, err = vRender("a {% comment %}"+body+"{% endcomment %} b", Bindings{})
 	nd.Assert(err == nil, "comment-renders")
 	nd.Assert(out == "a  b", "comment-contributes-nothing")
+	// several blocks in one template: each raw block emits its own body only
+	out, err = vRender("{% raw %}"+body+"{% endraw %}-{% comment %}"+body+"{% endcomment %}{% raw %}R{% endraw %}-{% raw %}"+body+"{% endraw %}", Bindings{})
+	nd.Assert(err == nil && out == body+"-R-"+body, "each-raw-block-emits-its-own-body")
 	nd.Reach("C05.raw")
 }
 
@@ -86,6 +89,10 @@ func VerifC05Value() {
 	out, err := vRender("[{{ s }}|{{ s | append: '' }}|{{ b }}]", Bindings{"s": s, "b": []byte(s)})
 	nd.Assert(err == nil, "value-renders")
 	nd.Assert(out == "["+s+"|"+s+"|"+s+"]", "value-emitted-exactly")
+	// whitespace-control hyphens elsewhere in the template (separated from the value by literal
+	// text, which is what they trim) do not touch the value
+	out, err = vRender("{% assign a = 1 -%}\n{{ s }}x{{ s }}\n{%- assign b = 2 %}|{{ e -}} \n{{ s }}", Bindings{"s": s, "e": ""})
+	nd.Assert(err == nil && out == s+"x"+s+"|"+s, "value-untouched-by-distant-hyphens")
 	nd.Reach("C05.value")
 }
 
